@@ -10,3 +10,4 @@ import InToto.Properties.C09
 #print axioms InToto.C09.acceptance_implies_all_inspections_ran
 #print axioms InToto.C09.last_stage_runs_a_prefix
 #print axioms InToto.C09.last_stage_accepts_iff
+#print axioms InToto.C09.facts_inspections_after_step_checks
